@@ -3,6 +3,7 @@ package rules
 import (
 	"fmt"
 	"go/types"
+	"sort"
 	"strings"
 
 	"golang.org/x/tools/go/ssa"
@@ -121,4 +122,84 @@ func c19synchronous(c *Ctx) {
 	}
 	sortStrings(bad)
 	c.R.Check(len(bad) == 0 && len(roots) >= 5, rule, redisPkg+".RedisLock#synchronous", "no method of RedisLock starts a goroutine, timer or background task: scripts run only inside the API call that asked for them", "-", fmt.Sprintf("%d methods; %v", len(roots), bad), bad, n)
+}
+
+// c19seed (R9, round 6): the ids that tell lock holders apart come from stringx's shared generator, seeded once, when
+// the process starts, from the nanosecond clock. Nothing else in the module reseeds it: stringx.Seed is called by no
+// non-test function (a package that "seeds the generator" with time.Now().Unix() gives every process started in the
+// same second the same id sequence — two processes then both pass the script's owner test for one key), and the
+// package-level source is built from (time.Time).UnixNano().
+func c19seed(c *Ctx) {
+	rule := "C19.R9"
+	const pkg = "core/stringx"
+	seed := c.fn(rule, pkg, "Seed")
+	if seed == nil {
+		return
+	}
+	var bad []string
+	calls, pkgs := 0, 0
+	for _, pk := range c.P.Pkgs {
+		if !strings.HasPrefix(pk.PkgPath, strings.TrimSuffix(mod, "/")) {
+			continue
+		}
+		pkgs++
+		for _, f := range c.P.AllFuncs(strings.TrimPrefix(pk.PkgPath, mod)) {
+			for _, b := range f.Blocks {
+				for _, ins := range b.Instrs {
+					ci, ok := ins.(ssa.CallInstruction)
+					if !ok {
+						continue
+					}
+					sc := ci.Common().StaticCallee()
+					// the function used as a value counts as well (it can then be called from anywhere)
+					for _, op := range ins.Operands(nil) {
+						if fv, ok := (*op).(*ssa.Function); ok && fv == seed && sc != seed {
+							bad = append(bad, fmt.Sprintf("%s: %s takes stringx.Seed as a value", c.P.Pos(ins.Pos()), funcDisplay(f)))
+						}
+					}
+					if sc == seed {
+						calls++
+						bad = append(bad, fmt.Sprintf("%s: %s reseeds the shared id generator: ids drawn afterwards are a function of that seed (a second-resolution or constant seed makes concurrent processes draw identical lock ids)", c.P.Pos(ins.Pos()), funcDisplay(f)))
+					}
+				}
+			}
+		}
+	}
+	sort.Strings(bad)
+	c.R.Check(len(bad) == 0 && pkgs > 50, rule, "module#reseed", "no function of the module calls stringx.Seed", "-", fmt.Sprintf("%d packages scanned, %d calls; %s", pkgs, calls, strings.Join(bad, "; ")), bad, pkgs)
+	// the initial seed
+	okSeed, found := false, false
+	if sp := c.P.SSAPkg(pkg); sp != nil {
+		if init := sp.Func("init"); init != nil {
+			for _, b := range init.Blocks {
+				for _, ins := range b.Instrs {
+					call, ok := ins.(*ssa.Call)
+					if !ok || call.Call.StaticCallee() == nil || call.Call.StaticCallee().Name() != "newLockedSource" {
+						continue
+					}
+					// its result is what `src` holds
+					toSrc := false
+					for _, r := range *call.Referrers() {
+						if st, ok := r.(*ssa.Store); ok {
+							if g, ok := st.Addr.(*ssa.Global); ok && g.Name() == "src" {
+								toSrc = true
+							}
+						}
+					}
+					if !toSrc {
+						continue
+					}
+					found = true
+					if a, ok := call.Call.Args[0].(*ssa.Call); ok && calleeName(a.Common()) == "(time.Time).UnixNano" {
+						okSeed = true
+					}
+				}
+			}
+		}
+	}
+	if !found {
+		c.R.Undecided(rule, pkg+".src", "the package-level id source and its seed are recognised", "src = newLockedSource(…) not found in the package initialiser")
+		return
+	}
+	c.R.Check(okSeed, rule, pkg+".src#initial-seed", "the shared generator is seeded from the nanosecond clock at process start", "-", "", nil, 1)
 }
